@@ -846,3 +846,9 @@ def run(rep, tier):
     rule_r7(rep, idxs)
     rule_r8(rep, idxs)
     rule_r9(rep, idxs)
+    # R10: "hexsim's and xrun's exit status is the program's exit value": the loader must not turn a valid image away (import of C02-R2)
+    from .. import report as _report
+    from . import c02
+    rep.rule('R10', 'the simulator loads every image that fits its memory (size guards compare like with like) and loads exactly the image '
+             '(import of C02-R2), so the exit status is the program\'s and not a loader refusal', floor=1)
+    c02.rule_r2(_report.Import(rep, 'R10', 'C02', key_filter=lambda r, k: k.startswith('load:')), idxs['hexsim.cpp'])
